@@ -108,10 +108,15 @@ def record_treebank_case(cid, Ts, modes, mods, seed, origin='tlc'):
 
 
 def record_rule_case(cid, func, lin, modes, mods, cnt=1, origin='tlc'):
+    """one rule - or, when `lin` is a dict {'lins': [...]}, ONE bare production with several linearizations (in
+    that insertion order, with counts 1, 2, ...) - is the whole grammar that is binarized in every mode"""
     mods = mods or treeio.repo_modules()
-    vert = ('%s%d' % (func[0], len(lin)), 'S1')
-    lin_t = tuple(tuple(tuple(e) for e in arg) for arg in lin)
-    gram = {tuple(func): {lin_t: {vert: cnt}}}
+    lins = lin['lins'] if isinstance(lin, dict) else [lin]
+    gram = {tuple(func): {}}
+    for k, ln in enumerate(lins):
+        vert = ('%s%d' % (func[0], len(ln)), 'S1')
+        lin_t = tuple(tuple(tuple(e) for e in arg) for arg in ln)
+        gram[tuple(func)][lin_t] = {vert: cnt + k}
     events = [{'a': 'setgram', 'gram': dump_gram(gram)}]
     events.extend(bin_events(mods, gram, modes))
     return {'id': cid, 'origin': origin, 'events': events, 'tags': []}
